@@ -162,13 +162,24 @@ def main(argv=None):
     for r in recs:
         for tr in r['traces'][:1 if tier == 'quick' else 3]:
             if len(trace_jobs) < max_tr:
-                trace_jobs.append(dict(kind='trace', unit=r['id'], values=tr['values'], observed=tr['observed']))
+                trace_jobs.append(dict(kind='trace', unit=r['id'], values=tr['values'], observed=tr['observed'],
+                                       patched=bool(r.get('patched'))))
 
     results = []
     need_jit = bool(jobs) or tier == 'thorough' or os.environ.get('VF_REPLAY_JIT') == '1'
+    # validation traces of PATCHED units (shrunk loop constants, stubs) are compared with the pure-Python float run of the same
+    # source, where the same patches apply; the compiled build has the real constants frozen in and cannot follow them
+    if need_jit:
+        py_traces = [j for j in trace_jobs if j.get('patched')]
+        trace_jobs = [j for j in trace_jobs if not j.get('patched')]
+    else:
+        py_traces = []
     all_jobs = jobs + kj + trace_jobs
     if all_jobs:
         results = replay_batch(modname, tier, all_jobs, jit=need_jit, seed=seed)
+    if py_traces:
+        results = list(results) + list(replay_batch(modname, tier, py_traces, jit=False, seed=seed))
+        all_jobs = all_jobs + py_traces
 
     confirmed, unconfirmed, known_printed, traces_ok, traces_bad = [], [], {}, 0, []
     os.makedirs(os.path.join(VERIF, 'replays'), exist_ok=True)
